@@ -80,6 +80,16 @@ func (r *c01Result) fail(key, format string, a ...any) {
 	r.mu.Unlock()
 }
 
+// c01SendDatagram sends from a scratch buffer and overwrites it as soon as the call returns.
+func c01SendDatagram(c *quic.Conn, payload []byte) error {
+	scratch := append([]byte(nil), payload...)
+	err := c.SendDatagram(scratch)
+	for i := range scratch {
+		scratch[i] = 0xEE
+	}
+	return err
+}
+
 // writeAll writes the pattern of `plan` in its chunking and closes the stream.
 func c01Write(w io.WriteCloser, plan, size int, chunks []int) error {
 	data := c01Data(plan, size)
@@ -93,7 +103,14 @@ func c01Write(w io.WriteCloser, plan, size int, chunks []int) error {
 				n = len(data)
 			}
 		}
-		if _, err := w.Write(data[:n]); err != nil {
+		// the application writes from a scratch buffer that it reuses straight away (io.Writer:
+		// "Write must not retain p"; the same holds for SendDatagram)
+		scratch := append([]byte(nil), data[:n]...)
+		_, err := w.Write(scratch)
+		for i := range scratch {
+			scratch[i] = 0xEE
+		}
+		if err != nil {
 			return err
 		}
 		data = data[n:]
@@ -248,7 +265,7 @@ func c01Run(t *testing.T, cfg c01Config) c01Outcome {
 				dgWG.Add(1)
 				go recvDgrams("server", c, 0)
 				for i := 0; i < sc.Datagrams; i++ {
-					if err := c.SendDatagram(c01Data(100+1*10+i, 40+i)); err != nil {
+					if err := c01SendDatagram(c, c01Data(100+1*10+i, 40+i)); err != nil {
 						appErr("server send datagram", err)
 					}
 				}
@@ -322,7 +339,7 @@ func c01Run(t *testing.T, cfg c01Config) c01Outcome {
 				dgWG.Add(1)
 				go recvDgrams("client", conn, 1)
 				for i := 0; i < sc.Datagrams; i++ {
-					if err := conn.SendDatagram(c01Data(100+0*10+i, 40+i)); err != nil {
+					if err := c01SendDatagram(conn, c01Data(100+0*10+i, 40+i)); err != nil {
 						appErr("client send datagram", err)
 					}
 				}
